@@ -11,8 +11,11 @@ pub struct RegexReplacement {
 
 impl RegexReplacement {
     pub fn from_sed_command(sed_command: &str) -> Option<Self> {
-        let sep = sed_command.chars().nth(1)?;
-        let mut parts = sed_command[2..].split(sep);
+        // (by characters: the separator need not be a single byte)
+        let mut chars = sed_command.chars();
+        chars.next()?;
+        let sep = chars.next()?;
+        let mut parts = chars.as_str().split(sep);
         let regex = parts.next()?;
         let replacement = parts.next()?.to_string();
         let flags = parts.next()?;
